@@ -12,6 +12,7 @@ pub fn checks() -> Vec<Box<dyn Check>> {
     vec![
         Box::new(CheckA { id: "C01", accept: &["C01.", "panic"], level: "exploration" }),
         Box::new(CheckA { id: "C02", accept: &["C02.", "panic"], level: "fault_enumeration" }),
+        Box::new(CheckA { id: "C03", accept: &["C03.", "panic"], level: "exploration" }),
         Box::new(CheckA { id: "C13", accept: &["C13.", "panic"], level: "exploration" }),
         Box::new(CheckA { id: "C18", accept: &["C18.", "panic"], level: "fault_enumeration" }),
     ]
@@ -174,6 +175,49 @@ fn gen_plan(id: &str, seed: u64, _run: u64, tier: Tier) -> PlanA {
             let k = 1 + rng.usize_below(if inst.n > 17 || inst.proofs > 5 { 2 } else { 6 });
             let mut p = base_plan(inst, "honest", rng, k);
             gen_noise(rng, &mut p);
+            p
+        }
+        "C03" => {
+            let deep = rng.chance(1, if tier == Tier::Thorough { 400 } else { 4000 });
+            let inst = crate::inst_poplar::gen_poplar_inst(rng, deep);
+            let bits = inst.len as usize;
+            let k = if deep { 1 } else { 1 + rng.usize_below(8) };
+            let mut p = base_plan(inst, "honest", rng, k);
+            // planted heavy hitters: a few base strings, repeated
+            let nbase = 1 + rng.usize_below(3);
+            let bases: Vec<Vec<N>> = (0..nbase).map(|_| (0..bits).map(|_| N(rng.below(2) as u128)).collect()).collect();
+            for r in p.reports.iter_mut() {
+                if rng.chance(3, 4) {
+                    r.meas = bases[rng.usize_below(nbase)].clone();
+                }
+            }
+            let inputs: Vec<Vec<N>> = p.reports.iter().map(|r| r.meas.clone()).collect();
+            if deep {
+                // deep levels: one or two prefixes at a level beyond 21845 / at the leaf
+                let plen = *rng.pick(&[bits, bits, bits.min(21_846), bits.min(21_847), bits.min(40_000), 1]);
+                p.aps = vec![crate::inst_poplar::gen_prefixes(rng, &inputs, plen, 2, None)];
+            } else if bits <= 8 && rng.chance(1, 4) {
+                p.mode = "hh".into();
+                p.aps = vec![vec!["0".into(), "1".into()]];
+                // threshold in `agg.batches[0]`-independent field: reuse `inst.weight`
+                p.inst.weight = 1 + rng.below(k as u64) as u32;
+            } else {
+                p.aps = crate::inst_poplar::gen_ap_history(rng, &p.inst, &inputs, 4, 12);
+            }
+            gen_noise(rng, &mut p);
+            // noise faults are keyed on ap 0 / round 0 only; add a few for later rounds and params
+            for _ in 0..rng.below(3) {
+                let rep = rng.below(p.reports.len() as u64) as u32;
+                let ap = rng.below(p.aps.len() as u64) as u32;
+                p.faults.push(Fault { kind: EnvKind::VMsg, rep, ap, from: COMBINER, to: rng.below(2) as u8, round: rng.below(2) as u8, at_source: false, act: Act::Dup });
+            }
+            let events = p.reports.len() * p.aps.len() * 10 + 8;
+            if rng.chance(4, 5) {
+                p.choices = (0..events).map(|_| rng.u32()).collect();
+                for c in p.crashes.iter_mut() {
+                    c.step = rng.below(events as u64) as u32;
+                }
+            }
             p
         }
         "C13" => {
@@ -389,6 +433,52 @@ impl<'a> Visitor for ExecVis<'a> {
             }
         }
         match plan.mode.as_str() {
+            "hh" => {
+                // the collector's iterative heavy-hitters procedure, level by level, each level a
+                // full world pass over the same stored reports
+                judge_honest(plan, &pass, &mut ctx);
+                let bits = plan.inst.len as usize;
+                let threshold = plan.inst.weight as u128;
+                let mut cur = plan.clone();
+                let mut res = pass.results.first().cloned().flatten();
+                let mut level = 0usize;
+                let mut hitters: Vec<String> = Vec::new();
+                loop {
+                    if ctx.failed() {
+                        break;
+                    }
+                    let Some((counts, _)) = res.clone() else { break };
+                    let keep: Vec<String> = cur.aps[0].iter().zip(counts.iter()).filter(|(_, c)| **c >= threshold).map(|(p, _)| p.clone()).collect();
+                    if level + 1 == bits {
+                        hitters = keep;
+                        break;
+                    }
+                    if keep.is_empty() {
+                        break;
+                    }
+                    let mut next: Vec<String> = keep.iter().flat_map(|p| [format!("{p}0"), format!("{p}1")]).collect();
+                    next.sort();
+                    cur.aps = vec![next];
+                    cur.faults.clear();
+                    level += 1;
+                    let pass2 = World::<V, A, VK>::new(vdaf, ad, &cur, &mut ctx, &plan.vk.0)?.run();
+                    judge_honest(&cur, &pass2, &mut ctx);
+                    res = pass2.results.first().cloned().flatten();
+                    ctx.probe("heavy_hitters_level");
+                }
+                if !ctx.failed() {
+                    // brute force
+                    let mut cnt: std::collections::BTreeMap<String, u128> = std::collections::BTreeMap::new();
+                    for r in &plan.reports {
+                        *cnt.entry(crate::inst_poplar::bits_to_string(&r.meas)).or_default() += 1;
+                    }
+                    let want: Vec<String> = cnt.into_iter().filter(|(_, c)| *c >= threshold).map(|(s, _)| s).collect();
+                    if hitters != want {
+                        ctx.fail(Violation::new("C03.heavy_hitters", "hh|differs", format!("heavy hitters {hitters:?} != brute force {want:?} (threshold {threshold})")));
+                    }
+                    ctx.counters.inc("c03.heavy_hitter_runs");
+                }
+            }
             "honest" => judge_honest(plan, &pass, &mut ctx),
             "tamper" | "byz" => judge_robust(plan, &pass, &mut ctx, ad, &rerun)?,
             "skew" => judge_skew(plan, &pass, &mut ctx, &rerun, vdaf, ad)?,
@@ -398,10 +488,26 @@ impl<'a> Visitor for ExecVis<'a> {
     }
 }
 
+pub fn honest_id(inst: &Inst) -> &'static str {
+    match inst.class.as_str() {
+        "poplar1" => "C03",
+        "prio2" => "C19",
+        _ => "C01",
+    }
+}
+pub fn robust_id(inst: &Inst) -> &'static str {
+    match inst.class.as_str() {
+        "poplar1" => "C04",
+        "prio2" => "C19",
+        _ => "C02",
+    }
+}
+
 fn judge_honest(plan: &PlanA, pass: &PassOut, ctx: &mut Ctx) {
+    let hid = honest_id(&plan.inst);
     for (i, r) in pass.shard_refused.iter().enumerate() {
         if let Some(e) = r {
-            ctx.fail(Violation::new("C01.shard", "shard|refused", format!("sharding refused in-range measurement {:?} of report {i}: {e}", plan.reports[i].meas)));
+            ctx.fail(Violation::new(&format!("{hid}.shard"), "shard|refused", format!("sharding refused in-range measurement {:?} of report {i}: {e}", plan.reports[i].meas)));
             return;
         }
     }
@@ -410,11 +516,11 @@ fn judge_honest(plan: &PlanA, pass: &PassOut, ctx: &mut Ctx) {
             match e {
                 JobEnd::Finished(_) => {}
                 JobEnd::Failed(why) => {
-                    ctx.fail(Violation::new("C01.accept", "honest|rejected", format!("honest report {rep} (agg param {ap}) rejected at aggregator {j}: {why}")));
+                    ctx.fail(Violation::new(&format!("{hid}.accept"), "honest|rejected", format!("honest report {rep} (agg param {ap}) rejected at aggregator {j}: {why}")));
                     return;
                 }
                 JobEnd::Running => {
-                    ctx.fail(Violation::new("C01.accept", "honest|stuck", format!("honest report {rep} (agg param {ap}) never finished at aggregator {j}")));
+                    ctx.fail(Violation::new(&format!("{hid}.accept"), "honest|stuck", format!("honest report {rep} (agg param {ap}) never finished at aggregator {j}")));
                     return;
                 }
             }
@@ -422,13 +528,13 @@ fn judge_honest(plan: &PlanA, pass: &PassOut, ctx: &mut Ctx) {
     }
     for (ap, r) in pass.results.iter().enumerate() {
         let Some((got, included)) = r else {
-            ctx.fail(Violation::new("C01.aggregate", "honest|no_result", format!("no aggregate result for agg param {ap}")));
+            ctx.fail(Violation::new(&format!("{hid}.aggregate"), "honest|no_result", format!("no aggregate result for agg param {ap}")));
             return;
         };
         let ms: Vec<Vec<N>> = included.iter().map(|r| plan.reports[*r as usize].meas.clone()).collect();
         let want = model::reference(&plan.inst, &ms, &plan.aps[ap]);
         if *got != want {
-            ctx.fail(Violation::new("C01.aggregate", "honest|wrong_aggregate", format!("aggregate result {:?} != plain aggregate {:?} over {} reports", got, want, ms.len())));
+            ctx.fail(Violation::new(&format!("{hid}.aggregate"), "honest|wrong_aggregate", format!("aggregate result {:?} != plain aggregate {:?} over {} reports", got, want, ms.len())));
             return;
         }
         ctx.counters.inc("c01.aggregates_checked");
@@ -437,9 +543,10 @@ fn judge_honest(plan: &PlanA, pass: &PassOut, ctx: &mut Ctx) {
 
 /// Robust + strict + Byzantine-client oracles, with three-key confirmation.
 fn judge_robust<V: prio::vdaf::Vdaf, A: Adapter<V>>(plan: &PlanA, pass: &PassOut, ctx: &mut Ctx, ad: &A, rerun: &dyn Fn(&[u8], &mut Counters) -> Result<PassOut, String>) -> Result<(), String> {
+    let rid = robust_id(&plan.inst);
     // candidate violations under the first key
-    let mut cands: Vec<(u32, u32, &'static str, String)> = Vec::new();
-    let flag = |pass: &PassOut, ctx: &mut Ctx, record: bool| -> Vec<(u32, u32, &'static str, String)> {
+    let mut cands: Vec<(u32, u32, String, String)> = Vec::new();
+    let flag = |pass: &PassOut, ctx: &mut Ctx, record: bool| -> Vec<(u32, u32, String, String)> {
         let mut out = Vec::new();
         let noneff: Vec<&EffFault> = pass.effective.iter().filter(|e| !e.exempt).collect();
         for ((rep, ap), v) in &pass.jobs {
@@ -451,7 +558,7 @@ fn judge_robust<V: prio::vdaf::Vdaf, A: Adapter<V>>(plan: &PlanA, pass: &PassOut
                 let (fs, p) = ad.out_field(&plan.aps[*ap as usize]);
                 if let Some(sum) = sum_outputs(&outs, fs, p) {
                     if !model::output_valid(&plan.inst, &sum, &plan.aps[*ap as usize]) {
-                        out.push((*rep, *ap, "C02.robust", format!("all aggregators finished report {rep} but the output shares sum to {:?}, not the truncation of a valid encoding", &sum[..sum.len().min(12)])));
+                        out.push((*rep, *ap, format!("{rid}.robust"), format!("all aggregators finished report {rep} but the output shares sum to {:?}, not the truncation of a valid encoding", &sum[..sum.len().min(12)])));
                     }
                     if record {
                         ctx.counters.inc("c02.robust_checked");
@@ -459,17 +566,17 @@ fn judge_robust<V: prio::vdaf::Vdaf, A: Adapter<V>>(plan: &PlanA, pass: &PassOut
                 }
                 // Byzantine client with an invalid vector must be rejected
                 if r.evil && r.twin.is_none() {
-                    out.push((*rep, *ap, "C02.byz", format!("invalid encoded measurement {:?}… with an honest proof was accepted by all aggregators", &r.meas[..r.meas.len().min(12)])));
+                    out.push((*rep, *ap, format!("{rid}.byz"), format!("invalid encoded measurement {:?}… with an honest proof was accepted by all aggregators", &r.meas[..r.meas.len().min(12)])));
                 }
                 // strict: exactly one effective, non-exempt alteration in the run and it touched this report
                 if pass.effective.len() == 1 && noneff.len() == 1 && noneff[0].rep == *rep {
-                    out.push((*rep, *ap, "C02.strict", format!("a single alteration ({}) left verification complete at all aggregators", noneff[0].desc)));
+                    out.push((*rep, *ap, format!("{rid}.strict"), format!("a single alteration ({}) left verification complete at all aggregators", noneff[0].desc)));
                 }
             } else if r.evil && r.twin.is_some() && pass.effective.is_empty() {
-                out.push((*rep, *ap, "C02.fidelity", "valid encoding through the Byzantine-client seam was rejected".into()));
+                out.push((*rep, *ap, format!("{rid}.fidelity"), "valid encoding through the Byzantine-client seam was rejected".into()));
             } else if !r.evil && pass.effective.iter().all(|e| e.rep != *rep) {
                 // an untouched honest report in a tampering run must still be accepted
-                out.push((*rep, *ap, "C02.collateral", format!("honest report {rep} untouched by any alteration was not accepted")));
+                out.push((*rep, *ap, format!("{rid}.collateral"), format!("honest report {rep} untouched by any alteration was not accepted")));
             }
             if record {
                 if r.evil && r.twin.is_none() && !fin {
@@ -510,7 +617,7 @@ fn judge_robust<V: prio::vdaf::Vdaf, A: Adapter<V>>(plan: &PlanA, pass: &PassOut
         return Ok(());
     }
     let c = &confirmed[0];
-    ctx.fail(Violation::new(c.2, format!("{}|{}", c.2, plan.inst.class), format!("{} (confirmed under 3 independent verification keys)", c.3)));
+    ctx.fail(Violation::new(&c.2, format!("{}|{}", c.2, plan.inst.class), format!("{} (confirmed under 3 independent verification keys)", c.3)));
     Ok(())
 }
 
@@ -588,6 +695,7 @@ impl Check for CheckA {
     fn runs(&self, tier: Tier) -> u64 {
         let q = match self.id {
             "C01" => 24_000,
+            "C03" => 12_000,
             "C02" => 30_000,
             "C13" => 20_000,
             "C18" => 20_000,
@@ -612,6 +720,23 @@ impl Check for CheckA {
         let keep = out.violation.is_some();
         Ok((out, if keep { Some(serde_json::to_value(&plan).unwrap()) } else { None }))
     }
+    fn fixed_plans(&self, _tier: Tier) -> Vec<Value> {
+        if self.id != "C03" {
+            return Vec::new();
+        }
+        // deep Poplar1 instances at the level boundaries the seeded search reaches only rarely
+        let mut out = Vec::new();
+        let mut rng = Rng::new(0xC03);
+        for (bits, plen) in [(21_850u32, 21_846usize), (21_850, 21_847), (21_850, 21_850), (65_536, 65_536), (65_536, 40_000), (300, 300), (1, 1)] {
+            let mut inst = crate::inst_poplar::gen_poplar_inst(&mut rng, false);
+            inst.len = bits;
+            let mut p = base_plan(inst, "honest", &mut rng, 1);
+            let inputs: Vec<Vec<N>> = p.reports.iter().map(|r| r.meas.clone()).collect();
+            p.aps = vec![crate::inst_poplar::gen_prefixes(&mut rng, &inputs, plen, 2, None)];
+            out.push(serde_json::to_value(p).unwrap());
+        }
+        out
+    }
     fn shrink(&self, plan: &Value) -> Vec<Value> {
         let Ok(p) = serde_json::from_value::<PlanA>(plan.clone()) else { return Vec::new() };
         shrink_plan_a(&p).into_iter().map(|x| serde_json::to_value(x).unwrap()).collect()
@@ -620,6 +745,7 @@ impl Check for CheckA {
         match self.id {
             "C01" => "seeded swarm over Prio3 instance classes x parameters x batches, executed as a multi-party run over the simulated transport with reordering, absorbed duplicates and crash/restart from encoded state; distinct = distinct (class, n, multiproof, reports, fault-kind sequence, outcome) signatures among runs that executed >= 1 verify_init".into(),
             "C02" => "Byzantine client (library sharding over a raw invalid vector via the Evil<T> seam) or 1..3 alterations (bit/byte/truncate/extend/field-element add/non-canonical set, drop, extra share, cross-report splice) at every message class; robust, strict (single alteration) and must-reject oracles with 3-key confirmation; distinct = distinct (class, n, fault sequence incl. message class and mutation kind, outcome) signatures".into(),
+            "C03" => "seeded Poplar1 runs (bits 1..256, rare deep instances up to 2^16) over the simulated transport: batches with planted heavy hitters, admissible histories of 1..4 aggregation parameters on the same stored reports, both rounds through the wire, crash/restart between rounds, absorbed duplicates; prefix counts vs brute force; iterative heavy-hitters vs brute force; distinct as C01".into(),
             "C13" => "fault-free world-A runs with 2..8 reports; per aggregator a seeded partition into batches, accumulate order, merge tree, identity merges; bytes compared with single-pass aggregate; wrong-length refusals; distinct as C01".into(),
             "C18" => "configuration skew drawn at world creation: ctx / verify key / nonce at one or all aggregators, identifier swap/steal/rotation; oracle: some aggregator fails (3-key confirmation) or the stated exception finishes with unchanged outputs".into(),
             _ => String::new(),
